@@ -222,14 +222,28 @@ def _fixed_designs():
                 def _():
                     body()
 
+                how, callee = self.how, outer
+                if how.startswith("via_"):
+                    # the conditional call sits one level down: transaction -> helper -> (conditionally) outer
+                    helper, how = Method(name="helper"), how[4:]
+
+                    @def_method(m, helper)
+                    def _():
+                        if how == "if":
+                            with m.If(en):
+                                outer(m)
+                        else:
+                            outer(m, enable_call=en)
+
+                    how, callee = "plain", helper
                 with Transaction().body(m, ready=req):
-                    if self.how == "if":
+                    if how == "if":
                         with m.If(en):
-                            outer(m)
-                    elif self.how == "enable":
-                        outer(m, enable_call=en)
+                            callee(m)
+                    elif how == "enable":
+                        callee(m, enable_call=en)
                     else:
-                        outer(m)
+                        callee(m)
             else:
                 with Transaction().body(m, ready=req):
                     body()
@@ -239,6 +253,8 @@ def _fixed_designs():
            ("condition() branch calling a validate_arguments method (in a method)", lambda: CondValidate(True, "plain")),
            ("condition() branch calling a validate_arguments method (in a method called under m.If)", lambda: CondValidate(True, "if")),
            ("condition() branch calling a validate_arguments method (in a method called with enable_call)", lambda: CondValidate(True, "enable")),
+           ("condition() branch calling a validate_arguments method (in a method called under m.If by a helper method)", lambda: CondValidate(True, "via_if")),
+           ("condition() branch calling a validate_arguments method (in a method called with enable_call by a helper method)", lambda: CondValidate(True, "via_enable")),
            ("Forwarder writer/reader sharing an exclusive method", lambda: SharedResource("f")),
            ("Pipe writer/reader sharing an exclusive method", lambda: SharedResource("p")),
            ("Forwarder->Pipe->BasicFifo", lambda: Chain("fpq")), ("Pipe->Forwarder->Forwarder", lambda: Chain("pff")),
